@@ -23,8 +23,9 @@ VARIABLES ctxs, hist
 NA == <<97>>
 NB == <<98>>
 NF == <<102>>
+\* "small": one name, two slots; "names2": two names, one slot (no clone); "full": two names, two slots (simulation only)
 Names == IF Size = "small" THEN {NA} ELSE {NA, NB}
-FuncNames == IF Size = "small" THEN {NF} ELSE {NF, NA}          \* a function may share a variable's name
+FuncNames == IF Size = "full" THEN {NF, NA} ELSE IF Size = "names2" THEN {NA} ELSE {NF}   \* a function may share a variable's name
 
 \* values with a source form: [v |-> value, t |-> tokens]
 Lit(v, x) == [v |-> v, t |-> <<TLit(v, x)>>]
@@ -40,8 +41,8 @@ EmptyV == [v |-> VEmpty, t |-> <<TOp("("), TOp(")")>>]
 ValsSmall == {Lit(VNat(1), <<49>>), Lit(VNat(2), <<50>>), Lit(VFloat(F15), <<49, 46, 53>>), Lit(VStr(SS), QuoteText(SS)),
               Lit(VBool(TRUE), TrueText), Tup2, Tup3, EmptyV}
 ValsFull == ValsSmall \cup {Lit(VFloat(F25), <<50, 46, 53>>), Lit(VStr(ST), QuoteText(ST)), Lit(VBool(FALSE), FalseText)}
-Vals == IF Size = "small" THEN ValsSmall ELSE ValsFull
-Behs == IF Size = "small" THEN {BehId} ELSE {BehId, BehConst(VNat(1))}
+Vals == IF Size = "full" THEN ValsFull ELSE ValsSmall
+Behs == IF Size = "full" THEN {BehId, BehConst(VNat(1))} ELSE {BehId}
 
 Absent == [kind |-> "Absent", vars |-> EmptyMap, funcs |-> EmptyMap, nb |-> FALSE]
 Slots == {0, 1}
@@ -81,7 +82,8 @@ Calls(s) ==
   \cup {[Call("eval", s) EXCEPT !.toks = <<TId(<<109, 97, 120>>), TOp("("), TLit(VNat(1), <<49>>), TOp(","), TLit(VNat(2), <<50>>), TOp(")")>>,
                                 !.mode = "imm"]}                                     \* max(1, 2): the builtin switch
   \cup {[Call("get_value", s) EXCEPT !.n = n] : n \in Names}
-  \cup {Call("clear_variables", s), Call("clear_functions", s), Call("clear", s), Call("clone", s), Call("serde", s)}
+  \cup {Call("clear_variables", s), Call("clear_functions", s), Call("clear", s), Call("serde", s)}
+  \cup (IF Size = "names2" THEN {} ELSE {Call("clone", s)})
   \cup {[Call("set_function", s) EXCEPT !.n = n, !.b = b] : n \in FuncNames, b \in Behs}
   \cup {[Call("set_builtins", s) EXCEPT !.d = d] : d \in BOOLEAN}
 
